@@ -8,7 +8,9 @@ package main
 import (
 	"encoding/json"
 	"fmt"
+	"sort"
 	"sync/atomic"
+	"time"
 
 	"github.com/inspirer/textmapper/lalr"
 
@@ -26,6 +28,13 @@ type caseT struct {
 	Input    int              `json:"input"`
 	W        string           `json:"w"`
 	Marker   int              `json:"marker"` // rule that carries a trailing state marker, -1 = none
+	Prec     []precDecl       `json:"prec,omitempty"`
+	L        int              `json:"l,omitempty"`
+}
+
+type precDecl struct {
+	Assoc int   `json:"assoc"` // 0 left, 1 right, 2 nonassoc
+	Terms []int `json:"terms"`
 }
 
 func main() { core.Main("C06", "model_checking", run, replay, nil) }
@@ -54,11 +63,7 @@ func configs(g *gramenum.Gram) [][]gramenum.Input {
 // and rule lengths used for rule equivalence must not count them).
 var markerRule = -1
 
-func build(g *gramenum.Gram, inputs []gramenum.Input, sameAttr, minimize, optimize bool) (*lalr.Grammar, *lalr.Tables, error) {
-	return buildM(g, inputs, sameAttr, minimize, optimize, -1)
-}
-
-func buildM(g *gramenum.Gram, inputs []gramenum.Input, sameAttr, minimize, optimize bool, marker int) (*lalr.Grammar, *lalr.Tables, error) {
+func buildM(g *gramenum.Gram, inputs []gramenum.Input, sameAttr, minimize, optimize bool, marker int, prec []precDecl) (*lalr.Grammar, *lalr.Tables, error) {
 	attrVariant := 0
 	if marker <= -2 { // encoded: -2 = attribute variant 2 without marker
 		attrVariant = 2
@@ -79,6 +84,13 @@ func buildM(g *gramenum.Gram, inputs []gramenum.Input, sameAttr, minimize, optim
 			lg.Rules[i].Action = 1
 			lg.Rules[i].Type = i % 2
 		}
+	}
+	for _, p := range prec {
+		var ts []lalr.Sym
+		for _, t := range p.Terms {
+			ts = append(ts, lalr.Sym(t))
+		}
+		lg.Precedence = append(lg.Precedence, lalr.Precedence{Associativity: lalr.Associativity(p.Assoc), Terminals: ts})
 	}
 	var tbl *lalr.Tables
 	err := core.Guard(func() { tbl, _ = lalr.Compile(lg, lalr.Options{MinimizeDFA: minimize, Optimize: optimize}) })
@@ -162,10 +174,10 @@ func run(c *core.Ctx) {
 		L = 5
 	}
 	c.Set("L", L)
-	c.Rule("every rule set of the scope (conflicting grammars included, as with %expect) x 4-8 input configurations (several inputs, no-eoi, duplicated no-eoi inputs = synthetic lookahead inputs) x rule attributes {all distinct, all equal} x optimizeTables{off,on}: MinimizeDFA off vs on started at every input index, every token string <= L; non-trivial = compile where minimization actually merged states; states = distinct lock-step configurations (input, trace prefix), transitions = parser steps compared")
+	c.Rule("every rule set of the scope (conflicting grammars included, as with %expect) x 4-8 input configurations (several inputs, no-eoi, duplicated no-eoi inputs = synthetic lookahead inputs) x rule attributes {all distinct, all equal, one action + alternating node types} x optimizeTables{off,on}, plus the long-rule family (48 grammars, rule length 3..10, strings up to length 11) and the operator family (25 expression grammars x 28 precedence declarations incl. %nonassoc): MinimizeDFA off vs on started at every input index, every token string <= L; non-trivial = compile where minimization actually merged states; states = distinct lock-step configurations (input, trace prefix), transitions = parser steps compared")
 	var merged, states, transitions int64
-	process := func(g *gramenum.Gram) {
-		for _, inputs := range configs(g) {
+	processX := func(g *gramenum.Gram, L int, prec []precDecl, cfgs [][]gramenum.Input) {
+		for _, inputs := range cfgs {
 			for _, same := range []bool{false, true} {
 				for _, optz := range []bool{false, true} {
 				for marker := -2; marker < len(g.Rules); marker++ {
@@ -175,9 +187,9 @@ func run(c *core.Ctx) {
 					if marker == -2 && (same || optz) {
 						continue // attribute variant "same non-zero action, alternating node type": once
 					}
-					lg, t0, e0 := buildM(g, inputs, same, false, optz, marker)
-					_, t1, e1 := buildM(g, inputs, same, true, optz, marker)
-					base := caseT{g.String(), g, inputs, same, optz, 0, "", marker}
+					lg, t0, e0 := buildM(g, inputs, same, false, optz, marker, prec)
+					_, t1, e1 := buildM(g, inputs, same, true, optz, marker, prec)
+					base := caseT{g.String(), g, inputs, same, optz, 0, "", marker, prec, L}
 					if e0 != nil || e1 != nil {
 						err := e0
 						if err == nil {
@@ -208,7 +220,7 @@ func run(c *core.Ctx) {
 							if key != "" {
 								k := base
 								k.Input, k.W = in, w
-								c.Violate(key, msg+" :: "+g.String()+fmt.Sprintf(" inputs=%v sameAttr=%v optimize=%v markerAfterRule=%d", inputs, same, optz, marker), k)
+								c.Violate(key, msg+" :: "+g.String()+fmt.Sprintf(" inputs=%v sameAttr=%v optimize=%v markerAfterRule=%d prec=%v", inputs, same, optz, marker, prec), k)
 							}
 						})
 					}
@@ -219,6 +231,51 @@ func run(c *core.Ctx) {
 			}
 		}
 	}
+	process := func(g *gramenum.Gram) { processX(g, L, nil, configs(g)) }
+
+	// Family "long rules": the number of partition-refinement rounds the minimizer needs grows with
+	// the length of the longest chain of states, not with the number of symbols; rules much longer
+	// than the symbol table (1 nonterminal, 1-2 terminals, rule length up to 10) with every string
+	// up to one token longer than the longest rule.
+	tFam := time.Now()
+	long := longFamily()
+	core.ParallelFor(len(long), 16, func(i int) {
+		g := long[i]
+		maxLen := 0
+		for _, r := range g.Rules {
+			maxLen = max(maxLen, len(r.RHS))
+		}
+		processX(g, maxLen+1, nil, configs(g)[:2])
+	})
+	c.Add("long_rule_family_grammars", int64(len(long)))
+	c.Set("long_rule_family_wall_s", int(time.Since(tFam).Seconds()))
+	tFam = time.Now()
+
+	// Family "operators": expression grammars under every precedence declaration over the two
+	// operators (left/right/nonassoc, one or two groups): %nonassoc leaves explicit error entries
+	// in the lookahead lists, which are part of a state's signature.
+	ops := operatorFamily()
+	precs := precSpaces()
+	type opJob struct {
+		g    *gramenum.Gram
+		prec []precDecl
+	}
+	var jobs []opJob
+	for _, g := range ops {
+		for _, pr := range precs {
+			jobs = append(jobs, opJob{g, pr})
+		}
+	}
+	core.ParallelFor(len(jobs), 16, func(i int) {
+		if c.Expired() {
+			c.Capped("operator family not completed (budget)")
+			return
+		}
+		processX(jobs[i].g, 5, jobs[i].prec, configs(jobs[i].g)[:2])
+	})
+	c.Add("operator_family_cases", int64(len(jobs)))
+	c.Set("operator_family_wall_s", int(time.Since(tFam).Seconds()))
+
 	for _, sc := range scopes(c) {
 		if c.Expired() {
 			c.Capped(fmt.Sprintf("scope %+v not started (budget)", sc))
@@ -257,13 +314,108 @@ func run(c *core.Ctx) {
 	c.Sample(map[string]any{"grammar": "X1: ta; X1: tb X1", "inputs": "X1 no-eoi, X1 no-eoi (as produced by '%input X1 no-eoi' plus a (?= X1) lookahead)"})
 }
 
+// longFamily: one nonterminal X1 (symbol T+1) with 1-2 rules of length n = 3..10.
+func longFamily() []*gramenum.Gram {
+	rep := func(sym, n int) []int {
+		out := make([]int, n)
+		for i := range out {
+			out[i] = sym
+		}
+		return out
+	}
+	var out []*gramenum.Gram
+	for n := 3; n <= 10; n++ {
+		// X1: a^n                                  (1 terminal: the smallest symbol table)
+		out = append(out, &gramenum.Gram{T: 1, N: 1, Rules: []gramenum.Rule{{LHS: 2, RHS: rep(1, n)}}})
+		// X1: a^n | a^(n-1)                        (two lengths)
+		out = append(out, &gramenum.Gram{T: 1, N: 1, Rules: []gramenum.Rule{{LHS: 2, RHS: rep(1, n)}, {LHS: 2, RHS: rep(1, n-1)}}})
+		// X1: a a^(n-2) b | b a^(n-2) a            (two chains that differ only at their ends)
+		r1 := append(append([]int{1}, rep(1, n-2)...), 2)
+		r2 := append(append([]int{2}, rep(1, n-2)...), 1)
+		out = append(out, &gramenum.Gram{T: 2, N: 1, Rules: []gramenum.Rule{{LHS: 3, RHS: r1}, {LHS: 3, RHS: r2}}})
+		// X1: a^n | b^n
+		out = append(out, &gramenum.Gram{T: 2, N: 1, Rules: []gramenum.Rule{{LHS: 3, RHS: rep(1, n)}, {LHS: 3, RHS: rep(2, n)}}})
+		// X1: a^n | b a^(n-1)                      (chains of equal tails entered at different depths)
+		out = append(out, &gramenum.Gram{T: 2, N: 1, Rules: []gramenum.Rule{{LHS: 3, RHS: rep(1, n)}, {LHS: 3, RHS: append([]int{2}, rep(1, n-1)...)}}})
+		// X1: a^(n-1) b | a^(n-2) b b
+		out = append(out, &gramenum.Gram{T: 2, N: 1, Rules: []gramenum.Rule{{LHS: 3, RHS: append(rep(1, n-1), 2)}, {LHS: 3, RHS: append(rep(1, n-2), 2, 2)}}})
+	}
+	return out
+}
+
+// operatorFamily: terminals 1 = x (atom), 2 = p, 3 = q; nonterminal 4 = E.
+func operatorFamily() []*gramenum.Gram {
+	shapes := [][]int{{4, 2, 4}, {4, 3, 4}, {2, 4}, {4, 2}, {4, 2, 4, 3, 4}}
+	var out []*gramenum.Gram
+	n := len(shapes)
+	for mask := 1; mask < 1<<n; mask++ {
+		cnt := 0
+		for i := 0; i < n; i++ {
+			if mask>>i&1 == 1 {
+				cnt++
+			}
+		}
+		if cnt > 3 {
+			continue
+		}
+		g := &gramenum.Gram{T: 3, N: 1}
+		for i := 0; i < n; i++ {
+			if mask>>i&1 == 1 {
+				g.Rules = append(g.Rules, gramenum.Rule{LHS: 4, RHS: shapes[i]})
+			}
+		}
+		g.Rules = append(g.Rules, gramenum.Rule{LHS: 4, RHS: []int{1}})
+		out = append(out, g)
+	}
+	return out
+}
+
+// precSpaces: the operators p (2) and q (3) each in no group, group 1 or group 2 (canonical
+// order), every associativity per used group.
+func precSpaces() [][]precDecl {
+	var out [][]precDecl
+	for ap := 0; ap <= 2; ap++ {
+		for aq := 0; aq <= 2; aq++ {
+			var g1, g2 []int
+			for t, v := range map[int]int{2: ap, 3: aq} {
+				switch v {
+				case 1:
+					g1 = append(g1, t)
+				case 2:
+					g2 = append(g2, t)
+				}
+			}
+			sort.Ints(g1)
+			sort.Ints(g2)
+			if len(g1) == 0 && len(g2) > 0 {
+				continue
+			}
+			switch {
+			case len(g1) == 0:
+				out = append(out, nil)
+			case len(g2) == 0:
+				for a := 0; a < 3; a++ {
+					out = append(out, []precDecl{{a, g1}})
+				}
+			default:
+				for a := 0; a < 3; a++ {
+					for b := 0; b < 3; b++ {
+						out = append(out, []precDecl{{a, g1}, {b, g2}})
+					}
+				}
+			}
+		}
+	}
+	return out
+}
+
 func replay(c *core.Ctx, raw json.RawMessage) error {
 	var k caseT
 	if err := json.Unmarshal(raw, &k); err != nil {
 		return err
 	}
-	lg, t0, e0 := buildM(k.G, k.Inputs, k.SameAttr, false, k.Optimize, k.Marker)
-	_, t1, e1 := buildM(k.G, k.Inputs, k.SameAttr, true, k.Optimize, k.Marker)
+	lg, t0, e0 := buildM(k.G, k.Inputs, k.SameAttr, false, k.Optimize, k.Marker, k.Prec)
+	_, t1, e1 := buildM(k.G, k.Inputs, k.SameAttr, true, k.Optimize, k.Marker, k.Prec)
 	if e0 != nil || e1 != nil {
 		return fmt.Errorf("panic: %v %v", e0, e1)
 	}
